@@ -13,6 +13,7 @@ import (
 
 	"github.com/pion/turn/v5/verifharness/sim"
 	"github.com/pion/turn/v5/verifharness/simnet"
+	"github.com/pion/turn/v5/verifharness/wire"
 )
 
 // C15: server resources and lifecycle events stay balanced through every teardown.
@@ -77,6 +78,7 @@ type c15 struct {
 	seen         map[allocHandle]string
 	serverClosed bool
 	evBefore     int
+	tieMode      bool
 }
 
 // invariants evaluates every C15 oracle at a quiescent point.
@@ -86,8 +88,10 @@ func (x *c15) invariants(when string) {
 	if w.CallbacksInFlight() > 0 {
 		return
 	}
-	h.m.Audit(nil)
-	m.CrossCheck()
+	if !x.tieMode {
+		h.m.Audit(nil)
+		m.CrossCheck()
+	}
 	// ---- ledger: relay sockets / listeners open exactly for live allocations
 	liveRelays := map[string]*sim.MAlloc{}
 	maybe := false
@@ -247,6 +251,8 @@ func runC15(t *testing.T, rng *rand.Rand, rec *sim.Rec, tier string, caseNo int)
 	h := newHist(t, rng, rec, k)
 	x := &c15{h: h, seen: map[allocHandle]string{}}
 	switch caseNo % 8 {
+	case 4:
+		x.runTie(rng)
 	case 5:
 		x.runLateReadLoop(rng)
 	case 6:
@@ -254,6 +260,74 @@ func runC15(t *testing.T, rng *rand.Rand, rec *sim.Rec, tier string, caseNo int)
 	default:
 		x.run(rng, caseNo)
 	}
+}
+
+// runTie: two expiries of one allocation (or an expiry and a request) fall on the same instant.
+// Which of them wins is not determined; that every created-event is answered by exactly one
+// deleted-event, that nothing leaks and nothing crashes, is.
+func (x *c15) runTie(rng *rand.Rand) {
+	h := x.h
+	w, m, rec := h.w, h.m, h.rec
+	defer w.Shutdown()
+	c := h.clients[0]
+	if c.IsTCP || len(h.peers) == 0 {
+		return
+	}
+	p := h.peers[0]
+	r := m.Allocate(c, sim.AllocOpts{})
+	a, st := m.Alloc(c)
+	if r == nil || a == nil || st != sim.Live {
+		return
+	}
+	kind := pick(rng, []string{"perm-vs-alloc", "chan-vs-alloc", "perm-vs-chan", "refresh-on-perm-expiry", "refresh0-on-perm-expiry"})
+	life := time.Until(a.Exp)
+	switch kind {
+	case "perm-vs-alloc":
+		if life > m.PermTO {
+			w.Sleep(life - m.PermTO)
+		}
+		m.CreatePermission(c, p.Addr) // expires exactly when the allocation does (if the lifetime allows)
+	case "chan-vs-alloc":
+		if life > m.ChanTO {
+			w.Sleep(life - m.ChanTO)
+		}
+		m.ChannelBind(c, 0x4000, p.Addr)
+	case "perm-vs-chan":
+		m.ChannelBind(c, 0x4000, p.Addr)
+		if m.ChanTO > m.PermTO {
+			w.Sleep(m.ChanTO - m.PermTO)
+			m.CreatePermission(c, p.Addr) // now both end at the same instant
+		}
+	default:
+		m.CreatePermission(c, p.Addr)
+		w.Sleep(m.PermTO) // the next request is handled in the very instant the permission expires
+		tid := w.NewTID()
+		var b *wire.Builder
+		if kind == "refresh-on-perm-expiry" {
+			b = wire.NewBuilder(wire.MethodCreatePermission, wire.ClassRequest, tid)
+			b.AddXorAddr(wire.AttrXORPeerAddress, p.Addr.IP, p.Addr.Port)
+		} else {
+			b = wire.NewBuilder(wire.MethodRefresh, wire.ClassRequest, tid)
+			b.AddU32(wire.AttrLifetime, 0)
+		}
+		c.AddAuth(b)
+		m.Track(c, tid, 0)
+		_ = c.SendRaw(b.Bytes())
+		w.Settle()
+	}
+	x.collectHandles()
+	// well past every expiry involved; the model is told that everything of this client is gone
+	w.Sleep(life + m.PermTO + m.ChanTO + 10*time.Second)
+	w.Net.TakeSendLog()
+	for _, cl := range w.Clients {
+		cl.Collect()
+		cl.TakeInbox()
+	}
+	a.Gone = true
+	x.tieMode = true
+	x.invariants("after tie " + kind)
+	rec.FP("teardown/tie/%s", kind)
+	x.finish("tie-" + kind)
 }
 
 // runLateReadLoop: Refresh 0 followed at once by a new Allocate on the same 5-tuple while the old
